@@ -76,16 +76,23 @@ def gen_menu_tree(rng, dirsel, feature=None):
     visible_after_cap = [n for n in names if not (n in caps and dict(caps[n]["fields"]).get("Type") in ("X", "-"))]
     linkfiles = {}
     touched = set()
-    for lf in rng.sample([".Links", ".names"], rng.randrange(1, 3)):
+    link_hidden = set()
+    for lf in sorted(rng.sample([".Links", ".names"], rng.randrange(1, 3))):
         blocks = []
         for _ in range(rng.randrange(1, 5)):
-            cands = [n for n in visible_after_cap if n not in touched]
+            # a file is addressed by one block — or by several once a block has hidden it (it stays hidden)
+            cands = [n for n in visible_after_cap if n not in touched or n in link_hidden]
             ov = bool(cands) and rng.random() < 0.55
             b = c08gen.gen_block(rng, cands, override=ov)
             d = dict(b["fields"])
             if ov:
                 t = d["Path"][2:]
                 touched.add(t)
+                if t in link_hidden:
+                    blocks.append(b)
+                    continue
+                if d.get("Type") in ("X", "-"):
+                    link_hidden.add(t)
                 if d.get("Type") == "-":
                     feats.add("dash")
                 if t in caps and "Numb" in dict(caps[t]["fields"]) and "Numb" not in d and d.get("Type") not in ("X", "-"):
@@ -126,6 +133,13 @@ def dedicated(dirsel="/d"):
     sc("order", {".names": [B(Path="./b.txt", Numb="2"), B(Path="./zeta.txt", Numb="1"), B(Path="./fred", Numb="-1")],
                  ".Links": [B(Name="Aardvark", Type="0", Path="/x", Host="+", Port="+"),
                             B(Name="Neg two", Type="0", Path="/y", Host="+", Port="+", Numb="-2")]})
+    sc("hide-then-title", {".Links": [B(Type="X", Path="./fred")], ".names": [B(Path="./fred", Name="Fred again")]})
+    sc("hide-then-number-same-file", {".names": [B(Path="./zeta.txt", Type="X"), B(Numb="1", Path="./zeta.txt")]})
+    sc("title-then-hide", {".Links": [B(Path="./fred", Name="Fred")], ".names": [B(Type="X", Path="./fred")]})
+    sc("relative-here", {".Links": [B(Name="Inner", Type="0", Path="sub/inner.txt", Host="+", Port="+"),
+                                    B(Name="Up", Type="1", Path="../other", Port="+"),
+                                    B(Name="Plain", Type="0", Path="notes/x.txt"),
+                                    B(Name="Finger", Type="0", Path="lindner", Host="mudhoney.micro.umn.edu", Port="79")]})
     sc("cap-hide", {}, caps={"fred": B(Type="-"), "b.txt": B(Type="X")})
     sc("cap-override", {}, caps={"fred": B(Name="New Long Cool Name", Numb="2")})
     return out
@@ -146,12 +160,13 @@ def expected_menu(sc, mode):
         entries.append({"selector": sel, "type": ty, "name": FILES[n][1 + mi], "host": None, "port": None, "num": None,
                         "abstract": ab})
         gplus.add(sel)
+    hidden = set()
     for n, b in sc["caps"].items():
         if n in sc["names"]:
             bb = {"comments": [], "fields": [("Path", "./" + n)] + [kv for kv in b["fields"] if kv[0] != "Path"]}
             entries = c08gen.spec_apply(entries, base, [bb])
     for lf in sorted(sc["linkfiles"]):
-        entries = c08gen.spec_apply(entries, base, sc["linkfiles"][lf])
+        entries = c08gen.spec_apply(entries, base, sc["linkfiles"][lf], hidden)
     keys = [c08gen.spec_key(e) for e in entries]
     ties = len(set(keys)) != len(keys)
     return c08gen.spec_menu(c08gen.spec_order(entries), HOST, PORT, gplus), ties
